@@ -198,6 +198,20 @@ add("C02",
     "branch of the two gradient entry points returns a value of the wrong shape (known finding F9b, pinned by an existing test).",
     "Rocq/Coq proof over R (chain-rule invariant of the sweep) on a translated model + exact integer correspondence + FD oracle")
 
+add("C06",
+    "Coq theorems over a model of LocalOptFitnessFunction.__call__, ScipyOptimizer.__call__ / _sub_routine_for_obj_fn / "
+    "_run_method_for_optimization (incl. the TypeError -> BFGS fallback with method swap and restore) and "
+    "EquationRegressor.fit's best-of-retries loop, with scipy as an ARBITRARY oracle (any sequence of trial vectors written into "
+    "the individual, any final vector, TypeError or not): the value returned is the base fitness of exactly the constants held "
+    "afterwards, the equation no longer requests optimisation, the method option is restored, the constants are the vector the "
+    "optimizer returned; an equation that did not request optimisation is untouched and scipy is not consulted; refitting never "
+    "returns a fitness worse than the first fit (NaN-aware) and the reported fitness belongs to the constants returned. Tie: real "
+    "wrapper runs with scipy.optimize wrapped to record the oracle, replayed through the model (compared inside Coq); bit-for-bit "
+    "comparison with an independent base-fitness evaluation; scripted fitness sequences for the regressor loop.",
+    "Trusted: Coq kernel; scipy as an oracle (it returns a vector of the length it was given); the harness's scipy wrapper. The "
+    "constant count vs simplified expression clause is C18's lazy-update invariant. Axiom-free.",
+    "Rocq/Coq proof (for all oracle behaviours) + oracle-replay correspondence")
+
 NOT_APPLICABLE = []
 def main():
     props = [json.loads(l)["id"] for l in open(os.path.join(HERE, "properties.jsonl"))]
